@@ -127,12 +127,14 @@ class Engine:
         self.discovery = 0  # >0: dry run (no obligations recorded)
         self.disc_locals = None
         self.disc_maps = None
+        self.disc_refs = None
         self.loop_ids = {}  # id(ast loop) -> ordinal
         self.warnings = []
         self.prune_ms = self.opts.get("prune_ms", 600)
         self.mi = None
         self.axioms = None
         self.inline_stack = []
+        self.pre_ns = None
 
     # ------------------------------------------------------------------
     # obligations
@@ -311,9 +313,53 @@ class Engine:
 
     def ev_Tuple(self, e, st, exc):
         out = []
-        for s, vals in self.ev_seq(e.elts, st, exc):
-            out.append((s, Val(TTuple([v.ty for v in vals]), tuple(vals))))
+        starred = [isinstance(x, ast.Starred) for x in e.elts]
+        exprs = [x.value if isinstance(x, ast.Starred) else x for x in e.elts]
+        for s, vals in self.ev_seq(exprs, st, exc):
+            if any(starred):
+                # ("Cut", *tags): a tuple of str built from single strings and str sequences
+                seq = None
+                for v, star in zip(vals, starred):
+                    if star and v.ty == STRSEQ:
+                        part = v.z
+                    elif not star and v.ty == STR:
+                        part = z3.Unit(v.z)
+                    else:
+                        raise OutOfSubset("starred tuple display other than str sequences")
+                    seq = part if seq is None else z3.Concat(seq, part)
+                out.append((s, Val(STRSEQ, seq)))
+            else:
+                out.append((s, Val(TTuple([v.ty for v in vals]), tuple(vals))))
         return out
+
+    def ev_GeneratorExp(self, e, st, exc):
+        # (x for x in <tuple of str> if x != "<const>"): the subsequence without that string
+        if len(e.generators) == 1 and isinstance(e.elt, ast.Name):
+            g = e.generators[0]
+            if (
+                isinstance(g.target, ast.Name)
+                and g.target.id == e.elt.id
+                and len(g.ifs) == 1
+                and isinstance(g.ifs[0], ast.Compare)
+                and isinstance(g.ifs[0].ops[0], ast.NotEq)
+                and isinstance(g.ifs[0].left, ast.Name)
+                and g.ifs[0].left.id == e.elt.id
+                and isinstance(g.ifs[0].comparators[0], ast.Constant)
+                and isinstance(g.ifs[0].comparators[0].value, str)
+            ):
+                out = []
+                for s, src in self.ev(g.iter, st, exc):
+                    if src.ty != STRSEQ:
+                        raise OutOfSubset("generator expression over a non-str sequence")
+                    r = smt.fresh("filtered", smt.StrSeq)
+                    drop = z3.StringVal(g.ifs[0].comparators[0].value)
+                    # trusted builtin axiom: order-preserving filter (only what the contracts use)
+                    s.assume(z3.Not(z3.Contains(r, z3.Unit(drop))))
+                    s.assume(z3.Length(r) <= z3.Length(src.z))
+                    s.assume(z3.Implies(z3.Not(z3.Contains(src.z, z3.Unit(drop))), r == src.z))
+                    out.append((s, Val(STRSEQ, r)))
+                return out
+        raise OutOfSubset(f"generator expression at L{e.lineno}")
 
     def ev_JoinedStr(self, e, st, exc):
         # f-string: evaluate the embedded expressions for their safety obligations only
@@ -976,7 +1022,10 @@ class Engine:
             res = NONE_VAL
         else:
             res = fresh_val(f"res.{con.short}", con.result)
-        n = NS(s, args)
+        nvals = dict(args)
+        for gname, gty in (getattr(con, "ghost_locals", None) or {}).items():
+            nvals[gname] = fresh_val(f"{gname}.{con.short}", gty)
+        n = NS(s, nvals)
         if con.ensures is not None:
             for label, f in conj(con.ensures(o, n, view(s, res) if res.ty != NONE else None)):
                 s.assume(f)
@@ -997,7 +1046,7 @@ class Engine:
             if isinstance(ty, TRow) and ty.known:
                 s.assume(smt.isgap(fv) if ty.known == "gap" else z3.Not(smt.isgap(fv)))
             s.heap[name] = z3.Store(m, unview(ref), fv)
-            self.note_write(name)
+            self.note_write(name, unview(ref))
         elif kind == "list":
             _, elem, ref = loc
             k = sort_key(elem)
@@ -1007,7 +1056,7 @@ class Engine:
             s.heap[f"LLO.{k}"] = z3.Store(L, r, smt.fresh("hv.lo", smt.Int))
             s.heap[f"LHI.{k}"] = z3.Store(H, r, smt.fresh("hv.hi", smt.Int))
             for nm in (f"LA.{k}", f"LLO.{k}", f"LHI.{k}"):
-                self.note_write(nm)
+                self.note_write(nm, r)
         elif kind == "map":
             _, name = loc
             m = s.heap.get(name)
@@ -1025,17 +1074,41 @@ class Engine:
                 new_m = smt.fresh(f"hv.{nm}", old_m.sort())
                 s.assume(z3.ForAll([r], z3.Implies(r < s.alloc, new_m[r] == old_m[r])))
                 s.heap[nm] = new_m
-                self.note_write(nm)
+                self.note_write(nm, "fresh")
+        elif kind == "fresh-objs":
+            # fields of objects allocated by the callee: every object that existed before keeps them
+            _, cls, attrs = loc
+            r = smt.fresh("r", smt.Int)
+            for attr in attrs:
+                name, m, ty = field_map(s, cls, attr)
+                new_m = smt.fresh(f"hv.{name}", m.sort())
+                s.assume(z3.ForAll([r], z3.Implies(r < s.alloc, new_m[r] == m[r])))
+                s.heap[name] = new_m
+                self.note_write(name, "fresh")
+            if cls is not None:
+                cm = class_map(s)
+                new_c = smt.fresh("hv.H.$class", cm.sort())
+                s.assume(z3.ForAll([r], z3.Implies(r < s.alloc, new_c[r] == cm[r])))
+                s.heap["H.$class"] = new_c
+                self.note_write("H.$class", "fresh")
         elif kind == "alloc":
             a = smt.fresh("alloc", smt.Int)
             s.assume(a >= s.alloc)
             s.alloc = a
+        elif kind == "ralloc":
+            a = smt.fresh("ralloc", smt.Int)
+            s.assume(a >= s.ralloc)
+            s.ralloc = a
         else:
             raise OutOfSubset(f"havoc location {loc}")
 
-    def note_write(self, mapname):
+    def note_write(self, mapname, ref=None):
+        """ref: z3 term of the written reference, "fresh" for writes that only concern references
+        allocated by the write itself, None when unknown"""
         if self.disc_maps is not None:
             self.disc_maps.add(mapname)
+        if self.disc_refs is not None:
+            self.disc_refs.setdefault(mapname, []).append(ref)
 
     # -- constructors
 
@@ -1047,6 +1120,11 @@ class Engine:
             r = smt.fresh("new" + cls, smt.Row)
             self_v = Val(FRAG if cls == "Fragment" else GAP, r)
             s.assume(smt.isgap(r) if cls == "Gap" else z3.Not(smt.isgap(r)))
+            if cls == "Fragment" and s.ralloc is not None:
+                # a new Fragment object: distinct from every object that existed before
+                # (Gap objects are memoised by Gap.__new__, so nothing is claimed about them)
+                s.assume(smt.oid(r) == s.ralloc)
+                s.ralloc = s.ralloc + 1
             args = self.bind_contract(con, [self_v] + pos, kw, line)
             out = []
             for s2, _ in self.call_contract(con, args, s, exc, line):
@@ -1273,7 +1351,7 @@ class Engine:
                 arr, hi = lv.arr, lv.hi
                 set_list(s, ty.elem, recv.z, arr=z3.Store(arr, hi, xz), hi=hi + 1)
                 for nm in (f"LA.{k}", f"LHI.{k}"):
-                    self.note_write(nm)
+                    self.note_write(nm, recv.z)
                 return [(s, NONE_VAL)]
             if name == "pop":
                 n = lv.len
@@ -1288,11 +1366,11 @@ class Engine:
                 if idx == 0:
                     x = lv.arr[lv.lo]
                     set_list(s, ty.elem, recv.z, lo=lv.lo + 1)
-                    self.note_write(f"LLO.{k}")
+                    self.note_write(f"LLO.{k}", recv.z)
                 else:
                     x = lv.arr[lv.hi - 1]
                     set_list(s, ty.elem, recv.z, hi=lv.hi - 1)
-                    self.note_write(f"LHI.{k}")
+                    self.note_write(f"LHI.{k}", recv.z)
                 return [(s, unpack(ty.elem, x))]
             if name == "extend":
                 (x,) = pos
@@ -1302,7 +1380,7 @@ class Engine:
                         arr = z3.Store(arr, hi + j, pack(self.coerce(s, item, ty.elem, "extend", line), ty.elem))
                     set_list(s, ty.elem, recv.z, arr=arr, hi=hi + len(x.z))
                     for nm in (f"LA.{k}", f"LHI.{k}"):
-                        self.note_write(nm)
+                        self.note_write(nm, recv.z)
                     return [(s, NONE_VAL)]
                 if isinstance(x.ty, TList) and x.ty.elem == ty.elem:
                     ov = ListView(s, x.z, ty.elem)
@@ -1319,7 +1397,7 @@ class Engine:
                     )
                     set_list(s, ty.elem, recv.z, arr=new, hi=hi + n2)
                     for nm in (f"LA.{k}", f"LHI.{k}"):
-                        self.note_write(nm)
+                        self.note_write(nm, recv.z)
                     return [(s, NONE_VAL)]
                 raise OutOfSubset("extend argument")
         if isinstance(ty, TDict):
@@ -1536,7 +1614,7 @@ class Engine:
             name, m, fty = field_map(s, ty.cls, attr)
             vz = pack(self.coerce(s, v, fty, attr, line), fty)
             s.heap[name] = z3.Store(m, recv.z, vz)
-            self.note_write(name)
+            self.note_write(name, recv.z)
             return [s]
         raise OutOfSubset(f"attribute store on {ty} at L{line}")
 
@@ -1556,7 +1634,7 @@ class Engine:
             self.guard(s, exc, "IndexError", z3.And(0 <= k, k < n), "list assignment index", line)
             vz = pack(self.coerce(s, v, ty.elem, "item", line), ty.elem)
             set_list(s, ty.elem, c.z, arr=z3.Store(lv.arr, _plus(lv.lo, k), vz))
-            self.note_write(f"LA.{sort_key(ty.elem)}")
+            self.note_write(f"LA.{sort_key(ty.elem)}", c.z)
             return [s]
         if isinstance(ty, TDict):
             nh, has, nv, val = dict_maps(s, ty.key, ty.val)
@@ -1564,8 +1642,8 @@ class Engine:
             vz = pack(self.coerce(s, v, ty.val, "dict value", line), ty.val)
             s.heap[nh] = z3.Store(has, c.z, z3.Store(has[c.z], kz, z3.BoolVal(True)))
             s.heap[nv] = z3.Store(val, c.z, z3.Store(val[c.z], kz, vz))
-            self.note_write(nh)
-            self.note_write(nv)
+            self.note_write(nh, c.z)
+            self.note_write(nv, c.z)
             return [s]
         raise OutOfSubset(f"item store on {ty} at L{line}")
 
@@ -1712,6 +1790,14 @@ class Engine:
                 names.add(n.id)
         return names
 
+    def call_inv(self, spec, v, e):
+        import inspect
+
+        if spec.inv is None:
+            return []
+        n = len(inspect.signature(spec.inv).parameters)
+        return conj(spec.inv(v, e, self.pre_ns) if n >= 3 else spec.inv(v, e))
+
     def cut_loop(self, node, st, ordinal, spec, head, advance, body, hidden=()):
         """Loop cutting: assert the invariant on entry, havoc what the loop changes, assume the
         invariant, run one arbitrary iteration, assert the invariant (and variant) at the back edge."""
@@ -1724,7 +1810,7 @@ class Engine:
         entry = st.clone()
         e_ns = NS(entry, {})
         # 1. invariant on entry
-        for label, f in conj(spec.inv(NS(st, {}), e_ns)) if spec.inv else []:
+        for label, f in self.call_inv(spec, NS(st, {}), e_ns):
             self.oblige(st, f"loop{ordinal}.inv[{label}].entry", "inv-entry", f, line)
         # 2. discovery of what the loop assigns / writes (dry run, no obligations)
         mod_locals, mod_maps, allocs = self.discover(st, head, advance, body)
@@ -1741,6 +1827,8 @@ class Engine:
                 continue
             s.frames[fi].vars[name] = fresh_val(f"{name}.h{ordinal}", ty)
         frame_allow = spec.frame(NS(s, {}), e_ns) if spec.frame else None
+        if frame_allow is None and mod_maps:
+            frame_allow = self.auto_frame(s, head, advance, body, ordinal, mod_maps)
         for name in sorted(mod_maps):
             old = entry.heap.get(name)
             if old is None:
@@ -1751,8 +1839,12 @@ class Engine:
             a = smt.fresh("alloc", smt.Int)
             s.assume(a >= s.alloc)
             s.alloc = a
+        if s.ralloc is not None:
+            ra = smt.fresh("ralloc", smt.Int)
+            s.assume(ra >= s.ralloc)
+            s.ralloc = ra
         v = NS(s, {})
-        for label, f in conj(spec.inv(v, e_ns)) if spec.inv else []:
+        for label, f in self.call_inv(spec, v, e_ns):
             s.assume(f)
         if spec.hints:
             for f in spec.hints(v):
@@ -1774,7 +1866,7 @@ class Engine:
                     s2 = oc.st
                     advance(s2)
                     v2 = NS(s2, {})
-                    for label, f in conj(spec.inv(v2, e_ns)) if spec.inv else []:
+                    for label, f in self.call_inv(spec, v2, e_ns):
                         self.oblige(s2, f"loop{ordinal}.inv[{label}].preserved", "inv-step", f, line)
                     for label, f in self.frame_formulas(s2, entry, mod_maps, frame_allow):
                         self.oblige(s2, f"loop{ordinal}.frame[{label}].preserved", "frame", f, line)
@@ -1786,6 +1878,45 @@ class Engine:
                 else:
                     outs.append(oc)
         return outs + exc
+
+    def auto_frame(self, s, head, advance, body, ordinal, mod_maps):
+        """Default frame of a loop: a heap map written only at references that do not depend on
+        anything the loop changes may change at those references only.  The frame is *proved* as part
+        of the invariant (obligation loopN.frame[...]), so a wrong guess cannot make anything unsound."""
+        saved = (self.disc_locals, self.disc_maps, self.disc_refs)
+        self.disc_locals, self.disc_maps, self.disc_refs = set(), set(), {}
+        self.discovery += 1
+        try:
+            s0 = s.clone()
+            exc = []
+            for s1, side in head(s0, exc):
+                if side:
+                    for oc in self.exec_block(body, s1):
+                        if oc.kind in ("normal", "continue"):
+                            advance(oc.st)
+            refs = self.disc_refs
+        except (OutOfSubset, SpecInapplicable):
+            refs = {}
+        finally:
+            self.discovery -= 1
+            self.disc_locals, self.disc_maps, self.disc_refs = saved
+        marker = f".h{ordinal}!"
+        allow = {"$free": []}
+        for name in mod_maps:
+            ws = refs.get(name)
+            if not ws or any(w is None for w in ws):
+                allow["$free"].append(name)
+                continue
+            terms = [w for w in ws if not isinstance(w, str)]
+            if any(marker in t.sexpr() for t in terms):
+                allow["$free"].append(name)  # target depends on loop-variant state: spec must give the frame
+                continue
+            uniq = []
+            for t in terms:
+                if not any(t.eq(u) for u in uniq):
+                    uniq.append(t)
+            allow[name] = uniq
+        return allow
 
     def frame_formulas(self, s, entry, mod_maps, allow):
         """for every havocked heap map: references that existed at loop entry and are not in the
